@@ -20,6 +20,7 @@ def check(chk, thorough=False):
     chk.run('C03.h', 'R-GUARD', 'the data a MAC is checked over is the block data as received: parsed payloads are not written back over it before verification (= C02.d)', lambda ob: __import__('sa.props.c02', fromlist=['c02d']).c02d(tree, ob), floor=3)
     chk.run('C03.i', 'R-GUARD', 'the structure check of a security block judges each target by itself: an unmodified block with several targets is not refused (= C12.g)', lambda ob: __import__('sa.props.c12', fromlist=['c12g']).c12g(tree, ob), floor=2)
     chk.run('C03.j', 'R-PAIR', 'each certificate of a PEM chain file is parsed from its own lines: the line accumulator is emptied after every certificate (else every entry of the chain is the first certificate again)', lambda ob: c03j(tree, ob), floor=1)
+    chk.run('C03.k', 'R-FRESH', 'each target of a policy gets its own operation, so the block lists every target once and every target is covered by its own MAC (= C16.f)', lambda ob: __import__('sa.props.c16', fromlist=['c16f']).c16f(tree, ob), floor=2)
     chk.run('C03.d', 'R-ORDER', 'a verification key comes only from the symmetric store by kid, or from a chain that was validated and whose node id matched; every other path raises', lambda ob: c03d(tree, ob), floor=4)
 
 
@@ -314,7 +315,44 @@ def tgt_result(fv, name, at, kind):
     return len(rd) == 1 and isinstance(rd[0][1], ast.Call) and pm('self.verify_{}_target(secop, result)'.format(kind), rd[0][1]) is not None
 
 
+def _chain_validation(tree, ob):
+    ''' the validator gets the whole chain that came with the message -- the first certificate as the end entity, every
+    further one as an intermediate -- and a validation context made for THIS bundle: trust roots and other certificates of
+    the configuration, and the time to validate at passed in by the caller (the creation time of the bundle).  A context
+    kept from an earlier call validates a later bundle at the earlier bundle's time. '''
+    fv = FuncView(tree, SEC, 'CoseContext.validate_chain_func')
+    tparam = fv.func.args.args[1].arg
+    ctxs = [c for c in calls_in(fv.func) if (call_name(c) or '').split('.')[-1] == 'ValidationContext']
+    c = one(ctxs, 'ValidationContext construction', ob)
+    mom = kwarg(c, 'moment')
+    stores = [n for n in walk_local(fv.func) if isinstance(n, ast.Assign) and any(self_attr(t) for t in n.targets)]
+    if mom is None or src(mom) != tparam:
+        ob.violate(SEC, fv.qual, src(c)[:60], 'the validation context is not made for the time passed in by the caller', c)
+    elif stores or not fv.cfg.must_pass(fv.cfg.entry, fv.cfg.exit, {fv.node(c)}, include_exc=False)[0]:
+        ob.violate(SEC, fv.qual, 'ValidationContext(..., moment={}) not built on every call'.format(tparam), 'the validation context is kept between calls: a certificate chain is validated at the time of an '
+                   'earlier bundle, so a certificate that had expired (or was not yet valid) at the creation time of this bundle is accepted', (stores or [c])[0])
+    else:
+        ob.site(SEC, c, 'a fresh validation context per call, at the time passed in')
+    inner = [f for f in ast.walk(fv.func) if isinstance(f, ast.FunctionDef) and f is not fv.func]
+    vf = one(inner, 'inner validate(chain)', ob)
+    ch = vf.args.args[0].arg
+    vals = [x for x in ast.walk(vf) if isinstance(x, ast.Call) and (call_name(x) or '').split('.')[-1] == 'CertificateValidator']
+    v = one(vals, 'CertificateValidator construction', ob)
+    ee = kwarg(v, 'end_entity_cert')
+    ic = kwarg(v, 'intermediate_certs')
+    vc = kwarg(v, 'validation_context')
+    if ee is None or src(ee) != ch + '[0]' or ic is None or src(ic) != ch + '[1:]':
+        ob.violate(SEC, fv.qual + '.validate', 'CertificateValidator(end_entity_cert={}, intermediate_certs={})'.format(src(ee) if ee is not None else '?', src(ic) if ic is not None else '?'),
+                   'the validator is not given the first certificate as end entity and all further ones as intermediates: a signer whose chain ends in an intermediate CA (root not sent) cannot be '
+                   'validated, and an unmodified bundle fails', v)
+    else:
+        ob.site(SEC, v, 'validator gets chain[0] and chain[1:]')
+    if vc is None or isinstance(vc, ast.Attribute):
+        ob.violate(SEC, fv.qual + '.validate', 'validation_context=' + (src(vc) if vc is not None else '?'), 'the validator does not use the context built for this call', v)
+
+
 def c03d(tree, ob):
+    _chain_validation(tree, ob)
     fv = FuncView(tree, SEC, 'CoseContext._get_cose_key')
     rets = [r for r in walk_local(fv.func) if isinstance(r, ast.Return)]
     ob.require(len(rets) >= 2, 'key returns')
